@@ -28,7 +28,7 @@ pub const C32: Check = Check {
     assumptions: &["no TALs are configured so a non-forced run succeeds at once without network"],
     shards: |_| 8,
     watchdog: |t| Duration::from_secs(t.pick(600, 3600)),
-    budget: |t| Duration::from_secs(t.pick(50, 600)),
+    budget: |t| Duration::from_secs(t.pick(50, 300)),
     run: run_c32,
     crash_is_violation: false,
     finish: None,
@@ -189,7 +189,7 @@ pub const C37: Check = Check {
     assumptions: &["HTTPS trust-anchor downloads are documented as per-call and are not counted"],
     shards: |_| 8,
     watchdog: |t| Duration::from_secs(t.pick(600, 3600)),
-    budget: |t| Duration::from_secs(t.pick(45, 600)),
+    budget: |t| Duration::from_secs(t.pick(45, 300)),
     run: run_c37,
     crash_is_violation: false,
     finish: None,
